@@ -64,7 +64,8 @@ type QRun struct {
 	W          *World
 	Client     *Client
 	Deliveries []Delivery
-	Attempts   []*Attempt
+	Attempts   []*Attempt // from the attempt.start/end events (all adapters)
+	Scripted   []*Attempt // the scripted adapter's own record (exact outcome classes)
 	Errors     []string
 	Events     []sim.Event
 	AddsDone   int
@@ -327,7 +328,7 @@ func RunQueue(rc *RunCtx, cfg QCfg) *QRun {
 		w.Srv.ScriptedAdapter = ScriptedName
 		said := 0
 		cl.Manifest.RegisterNewAdapterFunc(ScriptedName, dir, func(name string, d tq.Direction) tq.Adapter {
-			a := &scriptedAdapter{w: w, cfg: cfg.Script, dir: d, id: said, rec: &qr.Attempts}
+			a := &scriptedAdapter{w: w, cfg: cfg.Script, dir: d, id: said, rec: &qr.Scripted}
 			said++
 			return a
 		})
@@ -376,9 +377,7 @@ func RunQueue(rc *RunCtx, cfg QCfg) *QRun {
 		}
 	})
 	qr.Events = s.Events()
-	if !cfg.Scripted {
-		qr.Attempts = attemptsFromEvents(qr.Events)
-	}
+	qr.Attempts = attemptsFromEvents(qr.Events)
 	rc.Res.Fired = map[string]int{}
 	for k, v := range w.Srv.Fired {
 		rc.Res.Fired[k] = v
